@@ -8,7 +8,7 @@ props = [json.loads(l) for l in open(os.path.join(ROOT, 'properties.jsonl'))]
 CHECKS = {
  'C20': ("Errors.tla WF predicate evaluated by Errors_Trace on every error provoked from every entry point; path codec identity model-checked (Errors_MC) and all its 5461 paths replayed through json.Marshal of an error and ast.Path.UnmarshalJSON under four name alphabets",
          "4,000 (quick) / 80,000 (thorough) errors from the lexer, both parsers (named sources), limited entry points, LoadSchema over several uniquely named files (after an early load that extends built-ins), Validate under default and random rule subsets, VariableValues with defective values and hostile map keys; coverage counted by distinct message template (about 230 in the quick tier).",
-         "JSON shape is checked on json.Marshal of the *gqlerror.Error; message wording is not compared against an oracle.", "4/C20"),
+         "JSON shape is checked on json.Marshal of the *gqlerror.Error; message wording is not compared against an oracle; every error of a call whose sources are all named must carry one of those names.", "4/C20"),
 
  'C12': ("Printer.tla: the formatter is specified through its inverse, the SPECIFICATION's own parser (Lexer.tla + QueryGrammar.tla + Tree.tla); Printer_Trace requires SpecParse(format(d)) = d, the library's re-parse to agree, and format(parse(format(d))) = format(d); plus every sentence of the QueryGrammar_MC state graph formatted and re-read",
          "Every derivable sentence of the bounded grammar graph and a sentence through every transition of the larger graph, each under a rotating option set; 60 (quick) / 1,500 (thorough) generated document trees (strings with quotes, backslashes, control characters, non-BMP and non-printable runes, triple quotes, odd indentation; directives on every location incl. variable definitions; fragment variables; comments) x all 16 option sets (4 indents x comments x compacted).",
@@ -17,15 +17,15 @@ CHECKS = {
          "50 (quick) / 1,200 (thorough) grammar-directed type-system documents (every definition kind, extensions, constant directives and defaults, descriptions from a pool of 29 hostile texts: leading / trailing blank space and newlines, common indentation, CR, control characters, triple quotes, trailing backslash or quote) x 12 option sets (3 indents x comments x without-description); 40 / 800 loaded schemas from the typed generator (custom roots, default-named non-roots, schema description and directives, repeatable directives, described arguments, hostile descriptions) plus 12 hand-written corner cases x 4 / 12 option sets.",
          "Two recorded known findings pinned by golden files (argument separator under WithoutDescription; schema description not printed by FormatSchema). Default values and directive arguments of loaded schemas are compared by printed literal.", "4/C13"),
  'C11': ("Shared.tla (read-only operations on one schema; ReadOnly and SameAsAlone invariants over all interleavings of 3 goroutines, faulty writer as non-vacuity witness) + Shared_Trace on real runs: results equal the call run alone on a pristine schema, canonical deep snapshots of the schema graph equal before/after, no race-detector report; forced interleavings through hook H3",
-         "Per run: 2/8 schemas x (4/12 single-threaded histories of 30/75 calls with a snapshot around every call; goroutine runs with 2..8 / 2..32 goroutines in a child process built with -race; all 20 / 70 interleavings of two validations at walkSelection granularity). Calls are random mixes of parse+validate (valid, faulty, type-blind), variable coercion, argument resolution and schema formatting.",
+         "Per run: two fixed schemas whose tables are not in alphabetical order with every hand-written document (history + 4 goroutines), then 2/8 schemas x (4/12 single-threaded histories of 30/75 calls with a snapshot around every call and a re-rendering of every returned value after the last call; goroutine runs with 2..8 / 2..32 goroutines in a child process built with -race; all 20 / 70 interleavings of two validations at walkSelection granularity). Calls are random mixes of parse+validate (valid, faulty, type-blind), variable coercion, argument resolution and schema formatting.",
          "Data-race freedom is decided by the Go race detector on the schedules that occur; the snapshot is a reflective walk of everything reachable from *ast.Schema (including spare slice capacity).", "4/C11"),
 
  'C02': ("FragTraversal.tla (visits under the Global / OnPath memo disciplines, linearity model-checked on all 3-fragment graphs) + Total2_Trace: every LoadSchema / Validate call runs in a crash-isolated child process; hook-H2 recursion step counters per site are checked against polynomial bounds in the document size",
-         "1,000 (quick) / 17,000 (thorough) cases: LoadSchema on generated valid / faulty / hand-written / grammar-directed type-blind SDL; Validate on typed valid, fault-injected and type-blind documents; 17 adversarial families at 4 / 6 sizes (fragment fan-out under introspection, fields, top level, subscriptions; cycles through fields; fragments spreading each other while overlapping; exclusive-then-shared comparisons; deep aliases; wide same-name selection sets). A crash, fatal stack exhaustion or 20 s silence is attributed to its input; a hard budget of 30 million steps per site turns exponential blow-up into a deterministic verdict.",
+         "1,000 (quick) / 17,000 (thorough) cases: LoadSchema on generated valid / faulty / hand-written / grammar-directed type-blind SDL; Validate on typed valid, fault-injected and type-blind documents; 24 adversarial document families (fragment fan-out under introspection, fields, top level, subscriptions; cycles through fields; fragments spreading each other while overlapping; exclusive-then-shared comparisons; deep aliases; wide same-name selection sets; deep equal / differing / reordered object and list arguments, deep default values) and 12 adversarial type-system families (interface chains and cycles reached from a type that sorts first, input cycles through non-null fields and defaults, deep list types, wide unions, directive cycles, extension chains, extensions of missing types) at 4 / 6 sizes. A crash, fatal stack exhaustion or 20 s silence is attributed to its input; a hard budget of 30 million steps per site turns exponential blow-up into a deterministic verdict.",
          "Termination / no-panic are observations of the Go runtime; time is bounded through step counters, not seconds; polynomial bounds are generous (degree 4 for the merge rule).", "4/C02"),
 
  'C09': ("Links_Trace over the typed walk (Events) of Rules.tla: every link of every node of the validated real AST, recorded with pointer identity against the schema's own definitions, must be a fact the walk implies, and every node the walk visits must carry its fact",
-         "360 (quick) / 12,000 (thorough) generated valid documents on generated schemas plus hand-written ones (fields reached only through fragments, __typename on unions, introspection fields, values nested in lists inside input objects inside lists, list-coerced single values, variables in every position incl. fragments shared by several operations, directives on every executable location).",
+         "360 (quick) / 12,000 (thorough) generated valid documents on generated schemas, the valid ones among the small-scope documents of C08 (about 800 / 12,000), plus hand-written ones (fields reached only through fragments, __typename on unions, introspection fields, values nested in lists inside input objects inside lists, list-coerced single values, variables in every position incl. fragments shared by several operations, directives on every executable location).",
          "The inline-fragment link is a recorded known finding (links the enclosing type). Node identity is assigned by the projection.", "4/C09"),
  'C10': ("Determinism.tla function law (model-checked) and Determinism_Trace: the complete error list (order, rule, message incl. suggestions, locations, file) of every case observed on fresh parses, on re-validation of the same tree, and in 3/8 fresh worker processes must be identical; same for schema-load errors",
          "420 (quick) / 3,600 (thorough) cases: generated valid / faulty / misspelt (several equidistant candidates) / type-blind documents, hand documents on a schema with near-identical names (Item / ITEM, Doa..Doe, RED/REB/REC), faulty schemas.",
@@ -35,12 +35,12 @@ CHECKS = {
          "Errors are compared as (rule, message, locations).", "4/C18"),
 
  'C08': ("Rules.tla: the 27 validation rules as predicates over (schema, document) on top of a typed walk written in TLA+ (FieldsInSetCanMerge / SameResponseShape, variable usage with location defaults, literal coercion with 32-bit Int range, oneOf, introspection depth); Rules_Trace evaluates them with TLC on the parsed document and loaded schema and compares the document verdict with validator.Validate; three-way agreement with generator intent",
-         "Per run: 3 (quick) / 30 (thorough) generated schemas x (40/150 valid-by-construction documents, 120/500 documents with 1-3 injected faults from a 28-operator catalogue covering every rule, 40/150 type-blind documents over the schema's vocabulary) plus 180 hand-written corner cases on a fixed schema. The verdict (errors / no errors) must equal Rules.tla's; per-rule agreement is recorded as a diagnostic.",
+         "Per run: 3 (quick) / 30 (thorough) generated schemas x (40/150 valid-by-construction documents, 120/500 documents with 1-3 injected faults from a 28-operator catalogue covering every rule, 40/150 type-blind documents over the schema's vocabulary) plus 180 hand-written corner cases and the merge family (9 context orders x 36 selection pairs) on a fixed schema, plus small scope: every document with at most 3 / 4 selections over a seven-type schema and a fixed vocabulary (6,570 / 106,850 documents). The verdict (errors / no errors) must equal Rules.tla's; per-rule agreement is recorded as a diagnostic.",
          "Trusts Rules.tla as the reading of section 5; the document / schema given to the specification are projections of the real parser's / loader's output (C05, C07); verdict only, not wording.", "4/C08"),
 
  'C07': ("TypeSystem.tla (merge of definitions and extensions, 12 named rules as predicates over the set of definitions, relations, roots) evaluated by TypeSystem_Trace on the projection of the real parser's output; real gqlparser.LoadSchema verdict, relations and closure compared; three-way agreement with generator intent",
-         "Generated valid-by-construction type systems (interfaces implementing interfaces, unions, oneOf inputs, repeatable directives, defaults, custom scalars, nested list/non-null, directives on every type-system location, extensions and extension-only types, custom roots) must load and yield exactly the specification's types, directives, possible-type / implements relations and roots with introspection fields and no dangling reference; the same with one injected violation from a catalogue of 21 fault operators covering every enforced rule must be rejected; 60 hand-written corner cases. 300 (quick) / 6,200 (thorough) documents.",
-         "Trusts TypeSystem.tla as the reading of the rules the statement lists; the abstract document is the projection of parser.ParseSchemas' output (checked by C06); bounded exhaustive enumeration of tiny universes is not built yet (generator-driven only).", "4/C07"),
+         "Generated valid-by-construction type systems (interfaces implementing interfaces, unions, oneOf inputs, repeatable directives, defaults, custom scalars, nested list/non-null, directives on every type-system location, extensions and extension-only types, custom roots) must load and yield exactly the specification's types, directives, possible-type / implements relations and roots with introspection fields and no dangling reference; the same with one injected violation from a catalogue of 21 fault operators covering every enforced rule must be rejected; 70 hand-written corner cases; small scope: every combination of at most 3 / 4 blocks of a 30-block pool of definitions and extensions (4,525 / 31,930 type systems). 4,900 (quick) / 38,000 (thorough) documents.",
+         "Trusts TypeSystem.tla as the reading of the rules the statement lists; the abstract document is the projection of parser.ParseSchemas' output (checked by C06); the small-scope enumeration is over a fixed pool of blocks, not over all type systems of a size.", "4/C07"),
  'C17': ("TypeSystem.tla rules are predicates over the SET of definitions (order-free by construction); TypeSystem_Trace requires LoadSchema's outcome for every permutation x partition into files to equal the specification's outcome for the set, and the error file to hold an involved definition",
          "100 (quick) / 1,000 (thorough) generated schemas, valid and single-fault, each loaded in base order and under 10 / 50 random permutations of their top-level definitions crossed with random partitions into 1-5 files (extension before base, interface after implementer included).",
          "The involved-definition set for the error-file clause comes from the generator's fault operator and is only checked when the specification finds exactly one violated rule.", "4/C17"),
@@ -55,8 +55,8 @@ CHECKS = {
          "Every byte string up to 4 (quick) / 5 (thorough) bytes over a 17-byte adversarial alphabet, alone and behind ten prefixes that place the cursor inside escapes, block strings, comments, numbers and argument lists; seeded byte-level mutations of the repository's own test inputs and of generated documents; 22 size-parametrised families to 16 KiB / 64 KiB. A crash, fatal error or hang of the child is attributed to its input and reported; everything that returns is validated by TLC: nil error implies a document, syntax errors carry a line/column inside the input, lexer calls <= next() calls + 1 <= tokens + 2.",
          "Termination / no-panic is an observation of the Go runtime (child process + inactivity watchdog), not a TLC theorem; the time bound is stated on deterministic hook counters. Lexer.tla Progress/Bounds invariants are model-checked in C03.", "4/C01"),
  'C04': ("Lexer.tla carries line/lineStart through ignored text and block strings; TokenPos invariant (incremental = closed-form LineOf/ColOf) model-checked; every token's (start, line, column) compared on all graph paths, Lexer_Cases and Lexer_Trace",
-         "Same exhaustive input spaces as C03, compared on start offset, line and column of every token (incl. EOF) against the transducer, whose positions are themselves checked by TLC against the closed-form definition (1 + line terminators before the offset; distance from line start + 1) on every string up to length 3/4. AST-node and error positions are covered through the token they copy (positions are taken wholesale from tokens).",
-         "Positions of AST nodes and error locations beyond tokens are covered indirectly (they are copies of token positions); the String-token column convention is a recorded known finding.", "4/C04"),
+         "Same exhaustive input spaces as C03, compared on start offset, line and column of every token (incl. EOF) against the transducer, whose positions are themselves checked by TLC against the closed-form definition (1 + line terminators before the offset; distance from line start + 1) on every string up to length 3/4. Positions_Trace: every *ast.Position reachable from 600 / 7,700 parsed executable and type-system documents (hostile layout: CR / CRLF / LF mixes, BOMs, multi-byte comments, multi-line block strings) and schemas loaded from 1-5 files (prelude positions included), and every location of the syntax, schema and validation errors of their mutations, must be the (offset, line, column) of a token start of the source it names, with line / column the closed form of the offset.",
+         "A node position must be the start of SOME token of its source (the statement does not say which); the String-token column convention is a recorded known finding; Position.End is not part of the statement.", "4/C04"),
  'C05': ("QueryGrammar.tla: LL(1) pushdown automaton with SAX tree events, invariants (nesting, no variable in const context) model-checked; state graph dumped and every path replayed into parser.ParseQuery (accept/reject + tree equality under two ignored-token layouts); transition cover and near-miss cover of the larger graph; generated trees and token mutations validated by QueryGrammar_Trace",
          "Exhaustive within bounds: every token-class sequence up to 6 (quick) / 7 (thorough) tokens that is derivable, a viable prefix, or a viable prefix plus one inadmissible class; one shortest sentence through every transition of the 12/16-token graph plus spliced near-miss sentences; 2,000 / 30,000 generated and mutated documents whose verdict and tree are decided by the TLA+ automaton.",
          "Trusts QueryGrammar.tla as the reading of the grammar and the AST projection; lexemes per class are representatives.", "4/C05"),
@@ -64,7 +64,7 @@ CHECKS = {
          "Exhaustive within bounds (all paths up to 5/6 tokens over 34 classes, transition and near-miss covers at 11/14 tokens), plus generated type-system trees and single-token mutations validated by SchemaGrammar_Trace.",
          "Trusts SchemaGrammar.tla and the SchemaDocument projection; empty description equals none; AST lists compared in fixed order.", "4/C06"),
  'C16': ("TokenLimit.tla budget machine (peek/next/comment-group) model-checked for Lookahead, CountOnce, WorkBound, Exact, Sticky; hook-H1 event streams of real parses validated by TokenLimit_Trace against the machine and against the specification's own tokenisation",
-         "Every generated document x every limit 0..tokens+2 x every limited entry point: the recorded stream of lexer calls / counter increments / limit hits must be a behaviour of the budget machine, the outcome must be exact (ok iff unlimited ok and tokens <= limit), the tree identical, and no lexer call may follow the limit error; 1 MiB (quick) / 8 MiB (thorough) nesting, token-flood and comment-flood families under limits 1..200000 run in a child process with lexer calls <= limit + 1.",
+         "Every generated document x every limit 0..tokens+2 x every limited entry point: the recorded stream of lexer calls / counter increments / limit hits must be a behaviour of the budget machine, the outcome must be exact (ok iff unlimited ok and tokens <= limit), the tree identical, and no lexer call may follow the limit error; lists of three sources in one call (the limit is per source: ok iff every source parses and fits) at limits around the largest source and the sum; 1 MiB (quick) / 8 MiB (thorough) nesting, token-flood and comment-flood families under limits 1..200000 run in a child process with lexer calls <= limit + 1.",
          "Work/memory/recursion are bounded through the event counters (lexer calls, next() calls), not measured in seconds or bytes; trusts hook H1 placement.", "4/C16"),
  'C19': ("JsonCodec.tla (key sets + decoder discrimination rule, round-trip theorem model-checked); every path of the QueryGrammar graph parsed, JSON-encoded, decoded and compared with the tree denoted by the SPECIFICATION's events; generated deep documents' before/after trees and real per-selection key sets validated by JsonCodec_Trace",
          "All derivable sentences up to 6/7 tokens, a sentence through every transition of the 12/16-token graph, and 1,500/40,000 generated documents of depth up to 6 with all three selection kinds in all orders.",
